@@ -100,7 +100,7 @@ static void case_fi(Rng& r) {
   const uint8_t lg_max = static_cast<uint8_t>(r.range(3, G().thorough() ? 8 : 6));
   const uint8_t lg_start = static_cast<uint8_t>(r.range(3, lg_max));
   const uint64_t cap = (3ULL << lg_max) / 4;
-  const unsigned cls = static_cast<unsigned>(r.below(8));
+  const unsigned cls = static_cast<unsigned>(r.below(9));
   uint64_t n = 0, dom = 1; const char* desc = "";
   switch (cls) {
     case 0: n = 0; desc = "empty"; break;
@@ -109,6 +109,7 @@ static void case_fi(Rng& r) {
     case 3: n = cap + r.below(3); dom = 1000000; desc = "purge-boundary"; break;
     case 4: n = 2 * cap + r.below(20 * cap); dom = 2 * cap + r.below(4 * cap); desc = "purged"; break;
     case 5: n = 5 * cap + r.below(50 * cap); dom = 1000000; desc = "purged-distinct"; break;     // many purges, offset grows
+    case 6: n = 1 + r.below(4 * cap); dom = 1 + r.below(3 * cap); desc = "huge-weight"; break;    // total weight / offset around and beyond 2^32
     default: desc = "post-merge"; break;
   }
   std::unique_ptr<S> sk(new S(lg_max, lg_start));
@@ -116,7 +117,12 @@ static void case_fi(Rng& r) {
     for (uint64_t i = 0; i < m; ++i) { const uint64_t w = rr.chance(0.7) ? 1 : (rr.chance(0.9) ? 1 + rr.below(20) : (rr.chance(0.5) ? 0 : 1 + rr.below(1000000))); s.update(FiItem<T>::gen(rr, d), w); }
   };
   if (cls <= 5) fill(*sk, n, dom, r);
-  else {
+  else if (cls == 6) {
+    for (uint64_t i = 0; i < n; ++i) sk->update(FiItem<T>::gen(r, dom), r.chance(0.5) ? (1ULL << 30) + r.below(1ULL << 31) : 1 + r.below(1000));
+    if (r.chance(0.5)) sk->update(FiItem<T>::gen(r, dom), (1ULL << 32) - sk->get_total_weight() % (1ULL << 32) - r.below(2));   // total lands on a multiple of 2^32 or one below
+    count(fam + (sk->get_total_weight() >> 32 ? "_weight_at_or_above_2^32" : "_weight_below_2^32"));
+    if (sk->get_maximum_error() >> 32) count(fam + "_offset_at_or_above_2^32");
+  } else {
     const uint64_t n1 = r.below(10 * cap), n2 = r.below(10 * cap);
     fill(*sk, n1, 1 + r.below(4 * cap), r);
     S other(static_cast<uint8_t>(r.range(3, 8)), 3); fill(other, n2, 1 + r.below(4 * cap), r);
@@ -179,7 +185,7 @@ static void case_cm(Rng& r) {
   const uint8_t nh = static_cast<uint8_t>(r.range(1, 6));
   const uint32_t nb = static_cast<uint32_t>(r.chance(0.2) ? r.range(3, 4) : r.range(3, 64));
   const uint64_t seed = r.chance(0.5) ? DEFAULT_SEED : r.next();
-  const unsigned cls = static_cast<unsigned>(r.below(6));
+  const unsigned cls = static_cast<unsigned>(r.below(7));
   const uint64_t dom = 1 + r.below(200);
   uint64_t n = 0; const char* desc = "";
   std::unique_ptr<S> sk(new S(nh, nb, seed));
@@ -196,6 +202,10 @@ static void case_cm(Rng& r) {
     case 2: sk->update(static_cast<uint64_t>(3), static_cast<W>(0)); desc = "zero-weight-only"; break;
     case 3: n = 2 + r.below(30); desc = "few"; break;
     case 4: n = 30 + r.below(2000); desc = "many"; break;
+    case 5: { const unsigned m = 1 + static_cast<unsigned>(r.below(6));
+              for (unsigned i = 0; i < m; ++i) sk->update(r.below(dom), static_cast<W>((1ULL << 30) + r.below(1ULL << 31)));
+              if (r.coin()) sk->update(r.below(dom), static_cast<W>((1ULL << 32) - static_cast<uint64_t>(sk->get_total_weight()) % (1ULL << 32) - r.below(2)));
+              desc = "huge-weight"; count(fam + (static_cast<uint64_t>(sk->get_total_weight()) >> 32 ? "_weight_at_or_above_2^32" : "_weight_below_2^32")); break; }
     default: {
       fill(*sk, r.below(300), dom, r);
       S other(nh, nb, seed); fill(other, r.below(300), dom, r);
